@@ -90,6 +90,30 @@ def pruneTwigs (t : Table) (len : Int → Int → Nat) (size : Nat) (mask : Opti
     let del := twigDelete t len size mask
     if del.isEmpty then t else pruneTwigs (subset t fun i => !del.contains i) len size mask k
 
+/-! ### prune_twigs(exact=True) (`_prune_twigs_precise`): exactly `size` of cable off every tip -/
+
+/-- Height of a node: the largest path length down to a leaf distal to it (0 for a leaf). -/
+def heightOf (t : Table) (len : Int → Int → Nat) : Nat → Int → Nat
+  | 0, _ => 0
+  | fuel + 1, i => ((children t i).map fun c => len c i + heightOf t len fuel c).foldl max 0
+
+/-- Result of exact pruning as `(id, parent, τ)`: nodes whose height exceeds `size` are untouched
+(`τ = 0`); a node within `size` of all its distal tips survives only as the new tip of its parent
+edge, moved the fraction `τ = (size − height) / edge length` towards its parent — and only if the edge
+is long enough; everything distal to such a node is removed.  Roots are never moved. -/
+def exactPrune (t : Table) (len : Int → Int → Nat) (size : Rat) : List (Int × Int × Rat) :=
+  let h : Int → Rat := fun i => (heightOf t len (t.length + 1) i : Nat)
+  let inR : Int → Bool := fun i => decide (h i ≤ size)
+  t.filterMap fun n =>
+    if !inR n.id then some (n.id, n.parent, 0)
+    else if n.parent < 0 then some (n.id, n.parent, 0)
+    else if inR n.parent then none
+    else
+      let tau : Rat := size - h n.id
+      let L : Rat := (len n.id n.parent : Nat)
+      if L < tau then none
+      else some (n.id, n.parent, if L = 0 then 0 else tau / L)
+
 /-! ### prune_by_strahler: the index set -/
 
 inductive SISel where
